@@ -293,10 +293,13 @@ def instances(tier):
                 continue
             out.append(Instance("names lens=%s" % (list(lens),), h_names(lens, ("term", 1)),
                                 dict(kind="names", lens=list(lens), domain=NAME_DOMAIN, cost=1000 ** n), split=14))
-    for cont in (range(0, 4) if q else range(0, 6)):
+    # (continuations beyond one more 128-byte unit: a chunked reader must land exactly behind the NUL)
+    for cont in (tuple(range(0, 4)) + (127, 128, 129) if q else tuple(range(0, 6)) + (63, 64, 127, 128, 129, 255, 256, 257, 300)):
         for tail in ("record", "term", "eof"):
+            if cont > 5 and tail == "term" and q:
+                continue
             out.append(Instance("useragent cont=%d tail=%s" % (cont, tail), h_useragent(cont, tail),
-                                dict(kind="useragent", continuation=cont, tail=tail), native_timeout=5, max_loop=300))
+                                dict(kind="useragent", continuation=cont, tail=tail), native_timeout=5, max_loop=300 + 2 * cont))
     return out
 
 
